@@ -20,8 +20,8 @@ type MutOpts struct {
 	MaxVal    uint64 // when non-zero, additions stay at or below this value (removals are not restricted)
 }
 
-var mutOpsAll = []string{"Add", "CheckedAdd", "AddInt", "AddMany", "Remove", "CheckedRemove", "AddRange", "RemoveRange", "Flip", "Clear", "RunOptimize", "Clone", "CloneCOWContainers", "SetCOW"}
-var mutOpsWeights = []int{10, 8, 2, 6, 8, 8, 9, 9, 8, 1, 4, 3, 1, 2}
+var mutOpsAll = []string{"Add", "CheckedAdd", "AddInt", "AddMany", "Remove", "CheckedRemove", "AddRange", "RemoveRange", "Flip", "Clear", "RunOptimize", "Clone", "CloneCOWContainers", "SetCOW", "TrimEnds"}
+var mutOpsWeights = []int{10, 8, 2, 6, 8, 8, 9, 9, 8, 1, 4, 3, 1, 2, 3}
 
 func pickMutOp(r *Rng, o MutOpts) string {
 	if len(o.OnlyOps) > 0 {
@@ -274,6 +274,39 @@ func mutateStep(c *Ctx, bm *BM, o MutOpts) string {
 		if !empty {
 			m.FlipRange(s, e-1)
 		}
+	case "TrimEnds":
+		// a burst of removals of the current maximum (or minimum) of the bitmap or of one chunk: "pop from the end",
+		// which keeps hitting the last (first) run / the tail of one container without any other operation in between
+		n := 2 + r.Intn(9)
+		fromTop := r.Chance(0.6)
+		var lo, hi uint64 = 0, max32
+		if ivs := m.Intervals(); len(ivs) > 0 && r.Chance(0.5) {
+			k := ivs[r.Intn(len(ivs))].Lo >> 16
+			lo, hi = k<<16, k<<16|0xFFFF
+		}
+		c.Step("TrimEnds: %d removals of the current %s of [%d,%d]", n, map[bool]string{true: "maximum", false: "minimum"}[fromTop], lo, hi)
+		c.Guard(sig, func() {
+			for i := 0; i < n; i++ {
+				sub := m.Restrict(lo, hi)
+				var x uint64
+				var ok bool
+				if fromTop {
+					x, ok = sub.Max()
+				} else {
+					x, ok = sub.Min()
+				}
+				if !ok {
+					return
+				}
+				want := true
+				if i%2 == 0 {
+					b.Remove(uint32(x))
+				} else if got := b.CheckedRemove(uint32(x)); got != want {
+					c.Fail(sig+"/return", "CheckedRemove(%d) returned %v for a present value", x, got)
+				}
+				m.Remove(x)
+			}
+		})
 	case "Clear":
 		c.Step("Clear()")
 		c.Guard(sig, func() { b.Clear() })
